@@ -1,5 +1,6 @@
 import CifModel.Lemmas.WriterV1
 import CifModel.Props.C02Doc
+import CifModel.Lemmas.WriterV1Refuse
 /-
   Property C13 — whole documents in CIF 1.1 output mode.
 -/
@@ -101,6 +102,85 @@ theorem C13_roundtrip (o : Model.Parser.Opts) (pol : Model.Lexer.Policy) (cif : 
     (hw : writeCif 1 cif = .ok out) :
     ∃ back, Model.Parser.parse o pol [] out = { rc := 0, log := [], cif := back } ∧ All2 backBlock cif back :=
   roundtrip_doc 1 o pol cif out (by rw [hdia]; rfl) hun hpr hstore hmfd hutf hL hR hN hw
+
+open Lemmas.WriterTotal in
+/-- **C13_refuses** — `cif_write` in CIF 1.1 mode succeeds EXACTLY on what CIF 1.1 can express, and its refusal code names what it
+    cannot: for EVERY walked CIF that is writable at all (`containersOk`: loops hold a packet, scalar names have 2 … 2048
+    characters, numbers a non-empty text — no assumption on characters or value kinds),
+      * it succeeds  ⇔  `containersCE cif` (every block / frame code, every data name it writes, every string and every number
+        text it passes through `write_char` consists of CIF 1.1 characters) and `containersVE cif` (no list, no table, no string
+        that can only be a text field and contains `<LF>;` — at any depth of save frames),
+      * if it fails, the code is CIF_DISALLOWED_CHAR and `containersCE` fails, or CIF_DISALLOWED_VALUE and `containersVE` fails.
+    So a CIF holding a list, a table, an inexpressible string or a character outside the CIF 1.1 set is never written (nothing
+    is silently altered or dropped: what IS written round-trips, `C13_roundtrip`).  Invariant `Out` of Lemmas/WriterV1Refuse.lean. -/
+theorem C13_refuses (cif : WCif) (hok : containersOk cif) :
+    ((∃ out, writeCif 1 cif = .ok out) ↔ (containersCE cif ∧ containersVE cif)) ∧
+    (∀ e, writeCif 1 cif = .error e →
+      (e = Gen.ErrCodes.CIF_DISALLOWED_CHAR ∧ ¬ containersCE cif) ∨ (e = Gen.ErrCodes.CIF_DISALLOWED_VALUE ∧ ¬ containersVE cif)) :=
+  out_writeCif cif hok
+
+open Lemmas.WriterTotal in
+/-- the code per kind: all characters are CIF 1.1 characters, some value is not expressible → CIF_DISALLOWED_VALUE -/
+theorem C13_refuses_value (cif : WCif) (hok : containersOk cif) (hc : containersCE cif) (hv : ¬ containersVE cif) :
+    writeCif 1 cif = .error Gen.ErrCodes.CIF_DISALLOWED_VALUE := by
+  obtain ⟨h1, h2⟩ := C13_refuses cif hok
+  cases hr : writeCif 1 cif with
+  | ok out => exact absurd (h1.mp ⟨out, hr⟩).2 hv
+  | error e =>
+    rcases h2 e hr with ⟨_, hn⟩ | ⟨he, _⟩
+    · exact absurd hc hn
+    · rw [he]
+
+open Lemmas.WriterTotal in
+/-- … every value is expressible, some character is outside the CIF 1.1 set → CIF_DISALLOWED_CHAR -/
+theorem C13_refuses_char (cif : WCif) (hok : containersOk cif) (hv : containersVE cif) (hc : ¬ containersCE cif) :
+    writeCif 1 cif = .error Gen.ErrCodes.CIF_DISALLOWED_CHAR := by
+  obtain ⟨h1, h2⟩ := C13_refuses cif hok
+  cases hr : writeCif 1 cif with
+  | ok out => exact absurd (h1.mp ⟨out, hr⟩).1 hc
+  | error e =>
+    rcases h2 e hr with ⟨he, _⟩ | ⟨_, hn⟩
+    · rw [he]
+    · exact absurd hv hn
+
+open Lemmas.WriterTotal in
+/-- instances through the theorem (not by evaluation): a list, a table, the string `x<LF>;y` → CIF_DISALLOWED_VALUE;
+    `é` in a string, in a block code → CIF_DISALLOWED_CHAR -/
+example : writeCif 1 (C02Doc.oneItem (.lst [])) = .error Gen.ErrCodes.CIF_DISALLOWED_VALUE ∧
+    writeCif 1 (C02Doc.oneItem (.tbl [])) = .error Gen.ErrCodes.CIF_DISALLOWED_VALUE ∧
+    writeCif 1 (C02Doc.oneItem (.chr true (a!"x\n;y"))) = .error Gen.ErrCodes.CIF_DISALLOWED_VALUE ∧
+    writeCif 1 (C02Doc.oneItem (.chr true [233])) = .error Gen.ErrCodes.CIF_DISALLOWED_CHAR ∧
+    writeCif 1 [WContainer.mk [233] [] []] = .error Gen.ErrCodes.CIF_DISALLOWED_CHAR := by
+  have hok : ∀ v, valueOk v = true → containersOk (C02Doc.oneItem v) := by
+    intro v hv
+    simp [C02Doc.oneItem, containersOk, containerOk, loopOk, itemsOk, isScalars, hv, nameOk, countChar32, LINE]
+  refine ⟨?_, ?_, ?_, ?_, ?_⟩
+  · apply C13_refuses_value _ (hok _ rfl)
+    · simp [C02Doc.oneItem, containersCE, containerCE, loopsCE, loopCE, isScalars, packetsCE, itemsCE, valCE]; decide
+    · simp [C02Doc.oneItem, containersVE, containerVE, loopsVE, packetsVE, itemsVE, valVE]
+  · apply C13_refuses_value _ (hok _ rfl)
+    · simp [C02Doc.oneItem, containersCE, containerCE, loopsCE, loopCE, isScalars, packetsCE, itemsCE, valCE]; decide
+    · simp [C02Doc.oneItem, containersVE, containerVE, loopsVE, packetsVE, itemsVE, valVE]
+  · apply C13_refuses_value _ (hok _ rfl)
+    · simp [C02Doc.oneItem, containersCE, containerCE, loopsCE, loopCE, isScalars, packetsCE, itemsCE, valCE]; decide
+    · simp only [C02Doc.oneItem, containersVE, containerVE, loopsVE, packetsVE, itemsVE, valVE, and_true, true_and, Classical.not_not]
+      exact ⟨by decide, by decide⟩
+  · apply C13_refuses_char _ (hok _ rfl)
+    · simp only [C02Doc.oneItem, containersVE, containerVE, loopsVE, packetsVE, itemsVE, valVE, and_true, true_and]
+      intro h; exact absurd h.1 (by decide)
+    · simp [C02Doc.oneItem, containersCE, containerCE, loopsCE, loopCE, isScalars, packetsCE, itemsCE, valCE]; decide
+  · apply C13_refuses_char
+    · simp [containersOk, containerOk]
+    · simp [containersVE, containerVE, loopsVE]
+    · simp only [containersCE, containerCE, loopsCE, and_true]; decide
+
+open Lemmas.WriterChunks in
+/-- **C13_output_units** — in CIF 1.1 mode, on a CIF of CIF 1.1 characters (`cifR .cif1`), the units handed to the stream are
+    CIF 1.1 characters in the sense of the lexical grammar too (`okUnits .cif1`: printable ASCII, HT, LF; no surrogate at all) —
+    the grammar-side counterpart of `C13_pure` (`validate11`, the library's own table). -/
+theorem C13_output_units (nk : Str → Str) (cif : WCif) (out : Str) (hR : cifR .cif1 nk cif) (hw : writeCif 1 cif = .ok out) :
+    Spec.Lexical.okUnits .cif1 none out = true :=
+  output_units 1 nk cif out hR hw
 
 namespace C13Doc
 /-- CIF 1.1 parse with line unfolding and prefix removal on -/
